@@ -72,7 +72,9 @@ var ReqVariants = map[string][]string{
 	"host":       {"canonical", "absent", "case-name", "blanks", "empty", "dup-same", "with-port"},
 	"upgrade":    {"canonical", "absent", "case-name", "case-value", "blanks", "wrong", "empty", "dup-same", "dup-diff", "token-list", "prefix", "suffix", "cr-tail"},
 	"connection": {"canonical", "absent", "case-name", "case-value", "blanks", "wrong", "empty", "dup-same", "dup-diff", "list-first", "list-middle", "list-last", "list-nospace", "substring", "list-tab", "cr-tail"},
-	"version":    {"canonical", "absent", "case-name", "blanks", "wrong-12", "wrong-8", "wrong-130", "empty", "dup-same", "dup-diff", "list", "cr-tail"},
+	"version":    {"canonical", "absent", "case-name", "blanks", "wrong-12", "wrong-8", "wrong-130", "empty", "dup-same", "dup-diff", "list", "cr-tail",
+		// spellings a numeric parser takes for 13 but that are not the version token "13" (RFC 6455 §4.2.1: no leading zeros)
+		"num-013", "num-0013", "num-+13", "num-13.0", "num-0xd", "num-1_3", "num-13e0"},
 	"key":        {"canonical", "absent", "case-name", "blanks", "len23", "len25", "nonbase64-24", "decodes-17", "decodes-18", "empty", "dup-same", "dup-diff", "len16raw", "cr-inside", "cr-cr-tail", "cr-tail"},
 	"extra":      {"none", "some", "long-value", "many", "no-colon-line", "empty-name", "cr-only-line"},
 	"eol":        {"crlf", "lf"},
@@ -275,6 +277,9 @@ func BuildReq(rng *rand.Rand, choice map[string]string, protoHdrs, extHdrs []str
 	case "wrong":
 		add("Sec-WebSocket-Version", " 13x")
 		v.Reject("version 13x", 426)
+	case "num-013", "num-0013", "num-+13", "num-13.0", "num-0xd", "num-1_3", "num-13e0":
+		add("Sec-WebSocket-Version", " "+strings.TrimPrefix(c, "num-"))
+		v.Reject("version spelled "+strings.TrimPrefix(c, "num-"), 426, 400)
 	case "cr-tail":
 		crTail("Sec-WebSocket-Version", "13", 426, 400)
 	default:
